@@ -655,7 +655,8 @@ class C14(Check):
             if rng.random() < 0.25:
                 # the answer is a function of (schedule, now): the same schedule evaluated again a moment later
                 # (polls of two minutes both see a one-shot that is not yet removed; an id re-used for a new time)
-                now2 = now + rng.choice([0, 1, 250_000, 1_000_000, 2_500_000])
+                # (also a moment *earlier*: a clock that is stepped back, two schedulers' evaluations in either order)
+                now2 = now + rng.choice([0, 1, 250_000, 1_000_000, 2_500_000, -1, -250_000, -1_000_000, -3_000_000, -4_900_000])
                 task2 = task
                 if rng.random() < 0.5:
                     T2 = T + rng.choice([0, 3_000_000, 20_000_000])
